@@ -130,15 +130,15 @@ func TestC20(t *testing.T) {
 		"next block, MergeAllPermanent, pool writes (operations, proposals, INIT/ACCEPT ballots, expel operations, empty heights). After every " +
 		"block and every merge: snapshot of every read of the center, of the permanent database and of the pool (objects re-encoded with the " +
 		"JSON encoder; *Bytes reads as encoder hint + meta + body), close pool/center/storage, reopen the same storage, snapshot again, compare " +
-		"byte for byte; after reopening the reads are also compared with the committed-blocks model. non-trivial: a reopen with a suffrage " +
+		"byte for byte (whether the answers are the right ones is C19's business). non-trivial: a reopen with a suffrage " +
 		"proof in the permanent store and >= 1 unmerged temp; distinct by (genesis size, cache, storage, step list)")
-	r.Floor(int64(r.N(12, 300)))
+	r.Floor(int64(r.N(20, 400)))
 	r.Assume("quiescent points only: no block write or merge is in flight when the storage is closed",
 		"TempPool.LastVoteproofs is kept in memory only by design and is not part of the stored pool contents",
 		"goleveldb (mem and file storage) is trusted")
 
 	maxSteps := r.N(12, 20)
-	r.Checks(40, 2000)
+	r.Checks(80, 2400)
 	r.ShrinkTime(60 * time.Second)
 
 	rapid.Check(t, func(rt *rapid.T) {
@@ -199,12 +199,9 @@ func TestC20(t *testing.T) {
 			hist.add("reopen")
 
 			if name, va, vb, differ := dbSnapDiff(before, after); differ {
-				r.Violation(rt, c20Sig(name, va, vb), "%s differs after close+reopen (last=%d, permanent store holds <= %d):\n  before: %s\n  after : %s\nhistory: %s",
-					name, e.M.lastHeight(), e.PermLast, dbShort(va), dbShort(vb), hist)
+				r.Violation(rt, c20Sig(name, va, vb), "%s differs after close+reopen (last=%d, permanent store holds <= %d): %s\nhistory: %s",
+					name, e.M.lastHeight(), e.PermLast, dbDiffCtx(va, vb), hist)
 			}
-
-			// and what is read after reopening is still the committed chain
-			dbCheckReads(e.W.DB, e.M, dbDecoder{e}, e.centerCtx(true), dbViol(rt, r, hist.String))
 
 			if pb := e.M.lastProof(); pb != nil && pb.H <= e.PermLast && e.oldestTemp() > base.NilHeight {
 				nontrivial = true
